@@ -1694,3 +1694,92 @@ RAW_MODELS[:0] = [
     (r'^Result::<uuid::Uuid, .*>::unwrap_or_default$', m_uuid_unwrap_or_default),
 ]
 MODELS = [(re.compile(p), f) for p, f in RAW_MODELS]
+
+
+
+# ------------------------------------------------------------------ closures with symbolic branches inside iterator adapters: merge outcomes into one term
+def _merge_scalar(ex, outs):
+    """[(cond, value)] of Uint128 / Int / Bool values -> one value (if-then-else chain); None if not mergeable"""
+    vals = []
+    for cnd, v in outs:
+        if isinstance(v, Opaque):
+            return None
+        if isinstance(v, Adt) and v.ty == 'Uint128':
+            vals.append((cnd, v.fields[0], 'u'))
+        elif isinstance(v, z3.ExprRef) and (z3.is_int(v) or z3.is_bool(v)):
+            vals.append((cnd, v, 'z'))
+        else:
+            return None
+    if not vals:
+        return None
+    t = vals[-1][1]
+    for cnd, v, _ in reversed(vals[:-1]):
+        t = z3.If(cnd if cnd is not True else z3.BoolVal(True), v, t)
+    return U(t) if vals[0][2] == 'u' else t
+
+
+_iter_items_plain = _iter_items
+
+
+def _iter_items(ex, st, it):
+    if it.ty == 'MapIter':
+        src, clo, clo_text = it.fields
+        out = []
+        for x in _iter_items(ex, st, src):
+            r = ex.call_closure(st, clo_text, clo, [x])
+            if len(r) == 1 and not (isinstance(r[0][1], Opaque) and r[0][1].tag == 'PANIC'):
+                out.append(r[0][1])
+                continue
+            mv = _merge_scalar(ex, r)
+            if mv is None:
+                raise Unsupported('forking/panicking closure in iterator map')
+            out.append(mv)
+        return out
+    return _iter_items_plain(ex, st, it)
+
+
+def m_hashset_len(ex, st, a, c, m):
+    items = ex.deref(a[0]).fields[0]
+    tot = z3.IntVal(0)
+    for i, e in enumerate(items):
+        first = z3.And(*[struct_eq(items[j], e) == False for j in range(i)]) if i else z3.BoolVal(True)
+        tot = tot + z3.If(first, 1, 0)
+    return [(True, z3.simplify(tot))]
+
+
+RAW_MODELS[:0] = [
+    (r'^HashSet::len$', m_hashset_len),
+    (r'^core::str::<impl str>::as_bytes$|^core::str::<impl str>::as_str$', m_str_val),
+]
+MODELS = [(re.compile(p), f) for p, f in RAW_MODELS]
+
+
+def m_map_or(ex, st, a, c, m):
+    o = a[0]
+    if o.variant in ('None', 'Err'):
+        return [(True, a[1])]
+    return _apply_fn(ex, st, a[2], c, [o.fields[0]])
+
+
+def m_map_or_else(ex, st, a, c, m):
+    raise Unsupported('map_or_else (two closures)')
+
+
+def m_is_some_and(ex, st, a, c, m):
+    o = a[0]
+    if o.variant in ('None', 'Err'):
+        return [(True, z3.BoolVal(False))]
+    return _apply_fn(ex, st, a[1], c, [o.fields[0]])
+
+
+def m_option_or(ex, st, a, c, m):
+    o = a[0]
+    return [(True, o if o.variant == 'Some' else a[1])]
+
+
+RAW_MODELS[:0] = [
+    (r'^std::option::Option::map_or$|^Result::map_or$', m_map_or),
+    (r'^std::option::Option::is_some_and$|^Result::is_ok_and$', m_is_some_and),
+    (r'^std::option::Option::or$', m_option_or),
+]
+MODELS = [(re.compile(p), f) for p, f in RAW_MODELS]
